@@ -33,6 +33,8 @@ THEOREMS = [
     "C02.generated_detect_encoding", "C02.generated_open_reader", "C02.generated_extras", "C02.table_column",
     "C02.generated_read_swc_rows", "C02.generated_read_swc_invalid", "C02.generated_read_swc_decode", "C02.generated_norm_dispatch",
     "C02.generated_read_swc_sort_ignores_reset",
+    "RefineReadFront.read_swc_front_eq", "RefineReadFront.parse_swc_prologue_eq", "C02.generated_names", "C02.generated_read_swc_front",
+    "C02.generated_prologue",
 ]
 TRUSTED = ["hand-written recogniser of the SWC line language (Model/SwcText.lean), tested equal to CPython's `re` on generated lines, pinned to the regex strings extracted from io.py (Gen/Consts.lean)"]
 ASSUMPTIONS = ["CPython re / int() / float() / str methods / text decoding / universal newlines", "pandas DataFrame construction from the collected columns"]
@@ -1194,6 +1196,15 @@ class ReadFront(Suite):
             warnings.simplefilter("ignore")
             df, _ = io_mod.parse_swc(StringIO(text), names=get_names(None), extra_cols=xc)
         real["extras"] = list(df.columns[7:])
+        # the prologue: the regex text parse_swc compiles, its number of groups, the dtype pandas infers per column, the header comment
+        nx = len(real["extras"])
+        rx = real_re_swc(nx)
+        xrow = "".join(f" {7 + j}.5" for j in range(nx))
+        with warnings.catch_warnings():
+            warnings.simplefilter("ignore")
+            df2, cm2 = io_mod.parse_swc(StringIO("# " + " ".join(get_names(None).cols()) + "\n#k\n1 1 0 0 0 1 -1" + xrow + "\n"), names=get_names(None), extra_cols=xc)
+        real["prologue"] = {"re": rx.pattern, "groups": rx.groups, "tf": [{"int64": 0, "float64": 1}[str(t)] for t in df2.dtypes],
+                            "hdr": " ".join(get_names(None).cols()), "hdr_dropped": list(cm2) == ["k"]}
         det, conf = answers[0] if answers else [None, 0.0]
         lowc = 0.9 if case["lowc"] is None else case["lowc"]
         fc, fl = Fraction(conf), Fraction(lowc)
@@ -1211,9 +1222,14 @@ class ReadFront(Suite):
         low = [x for x in r["warn"] if "low confidence" in x]
         exp = (f"ok fname={r['fname']} fb={r['fb']} f={r['f']} encoding={r['encoding']} ret={r['ret']} warn={'0' if low else ''} "
                f"extras={','.join(r['extras']) or '_'}")
-        return [(res["line"], exp)]
+        pr = r["prologue"]
+        return [(res["line"], exp),
+                (f"gprologue extra={','.join(r['extras']) or '_'}",
+                 f"re={pr['re']} last={pr['groups']} tf={','.join(map(str, pr['tf']))} hdr={pr['hdr']}")]
 
     def oracle(self, case, res):
+        if "exc" not in res and not res["real"].get("prologue", {}).get("hdr_dropped", True):
+            return [("header-comment-kept", "the column header comment was returned as a comment")]
         if "exc" in res:
             return [("readfront-internal-error", f"the harness raised {res['exc']}: {res.get('msg')}")]
         return []
